@@ -137,12 +137,31 @@ fn noops_menu() -> Vec<ds::Horizontal> {
         ch('a'),
         glue(PT, 2 * PT, Fil, PT, Normal),
         hbox(PT, PT, PT, PT),
+        // the converse: wide, but nothing to the maxima
+        rule(Scaled(0), 10 * PT, Scaled(0)),
+    ]
+    .into_iter()
+    .chain(zero_width_tall())
+    .collect()
+}
+/// Items that are zero in the quantity that is summed (width) and extreme in the quantities that are
+/// maximised (height, depth): a strut, a zero-width rule with running height, zero-width boxes shifted
+/// up and down, a zero-width glyph and a zero-width ligature.
+fn zero_width_tall() -> Vec<ds::Horizontal> {
+    vec![
+        rule(Scaled(20 * PT), 0, Scaled(18 * PT)),
+        rule(ds::Rule::RUNNING, 0, Scaled(19 * PT)),
+        hbox(20 * PT, 0, 18 * PT, 3 * PT),
+        vbox(20 * PT, 0, 18 * PT, -3 * PT),
+        ch('|'),
+        lig('|', "||"),
     ]
 }
 fn mixed_menu() -> Vec<ds::Horizontal> {
     use GlueOrder::*;
     let mut m = non_glue_menu();
     m.extend(other_font_glyphs());
+    m.extend(zero_width_tall());
     m.extend([
         glue(PT, 2 * PT, Normal, 0, Normal),
         glue(PT, 0, Normal, 2 * PT, Normal),
@@ -498,6 +517,27 @@ fn check_list(list_idx: u64, list: &[ds::Horizontal], acc: &mut Acc) {
         kp::Node::Penalty(_) | kp::Node::Disc { .. } => true,
         _ => false,
     };
+    // zero in the summed quantity, extreme in a maximised one
+    let contrib = |n: &kp::Node| -> Option<(i64, i64, i64)> {
+        match n {
+            kp::Node::Char { w, h, d } | kp::Node::Rule { w, h, d } => Some((*w, *h, *d)),
+            kp::Node::Box { w, h, d, shift } => Some((*w, h - shift, d + shift)),
+            _ => None,
+        }
+    };
+    let (mut hz, mut dz, mut ho, mut dn) = (0i64, 0i64, 0i64, 0i64);
+    for c in mlist.iter().filter_map(contrib) {
+        if c.0 == 0 {
+            hz = hz.max(c.1);
+            dz = dz.max(c.2);
+        } else {
+            ho = ho.max(c.1);
+            dn = dn.max(c.2);
+        }
+    }
+    if hz > ho || dz > dn {
+        acc.count("zero_width_item_is_the_tallest_or_deepest");
+    }
     if !mlist.is_empty() && mlist.iter().all(zero_item) {
         acc.count("list_of_items_that_change_nothing");
     }
@@ -651,7 +691,7 @@ fn main() {
 
     let quick = ctx.quick();
     // F1: every node kind mixed with representative glue
-    seq_family(&mut ctx, 0, "nodes-mixed", "the node menu: 2 chars, ligature (font 0), the same three in font 1 with other metrics, a and b in font 2 (a missing there), +-kern, fixed and running rule, hbox shift 0/+/-, vbox shift +/- (one with negative width), penalty, discretionary, 10 glues (finite, fil, fill, filll, zero amount at a high order, negative)", &mixed_menu, 0, if quick { 4 } else { 5 });
+    seq_family(&mut ctx, 0, "nodes-mixed", "the node menu: 2 chars, ligature (font 0), the same three in font 1 with other metrics, a and b in font 2 (a missing there), six zero-width items taller and deeper than everything else (strut, running-height rule, two shifted boxes, glyph, ligature), +-kern, fixed and running rule, hbox shift 0/+/-, vbox shift +/- (one with negative width), penalty, discretionary, 10 glues (finite, fil, fill, filll, zero amount at a high order, negative)", &mixed_menu, 0, if quick { 4 } else { 5 });
     // F2: glue combinations, full cross of stretch x shrink
     if quick {
         seq_family(&mut ctx, 1, "glue-cross", "all glue with stretch in {0,+2pt,-2pt} x {normal,fil,fill,filll} and shrink in the same 12 values (144 glues, width cycling 0/+1pt/-1pt)", &|| glue_cross(&[0, 2, -2]), 1, 3);
@@ -666,7 +706,7 @@ fn main() {
     // F3c: rules with running dimensions
     seq_family(&mut ctx, 6, "rules", "rules with height and depth each running, small (1pt / 0.5pt) or large (15pt / 14pt, above every other item), two characters, a shifted box, a glue, a kern", &rules_menu, 1, if quick { 5 } else { 6 });
     // F3d: items that change nothing
-    seq_family(&mut ctx, 7, "noops", "zero kerns, all-zero glue (also with infinite orders), zero-width stretchable glue, penalty 0, the null box, an empty discretionary, a zero rule, next to a character, a fil glue and a shifted box", &noops_menu, 0, if quick { 5 } else { 6 });
+    seq_family(&mut ctx, 7, "noops", "zero kerns, all-zero glue (also with infinite orders), zero-width stretchable glue, penalty 0, the null box, an empty discretionary, a zero rule, next to a character, a fil glue and a shifted box; zero-width items that are the tallest/deepest (strut, zero-width rule with running height, zero-width boxes shifted up and down, zero-width glyph and ligature) and a wide rule of no height", &noops_menu, 0, if quick { 4 } else { 5 });
     // F4: dimensions at max_dimen
     seq_family(&mut ctx, 4, "max-dimen", "kerns, glue, boxes and rules with dimensions +-(2^30-1) (cases whose natural width or target leaves max_dimen are skipped)", &boundary_menu, 1, 3);
 
@@ -681,6 +721,7 @@ fn main() {
     ctx.require("list_of_items_that_change_nothing", "a non-empty list made only of zero kerns, all-zero glue, penalties, null boxes, empty discretionaries, zero rules");
     ctx.require("zero_valued_item_among_others", "a zero-valued item next to items that count");
     ctx.require("non_ascii_glyph_in_list", "a character or ligature whose character needs 2, 3 or 4 bytes in UTF-8");
+    ctx.require("zero_width_item_is_the_tallest_or_deepest", "an item of width 0 (rule, box, glyph, ligature) determines the height or depth of the box");
     ctx.require("overfull", "TeX would call the box overfull");
     ctx.require("shrink_exactly_used_up", "the target equals natural width minus the finite shrinkability (ratio exactly 1, not overfull)");
     ctx.require("shifted_box_decides_height_or_depth", "a shifted box determines the height or depth of the result");
